@@ -36,6 +36,13 @@ CHECKS = {
               'predicates is compiled and executed on SQLite; rows of the annotated predicates and of their readers must equal the '
               'unannotated run (itself compared with the reference). The SQLite authorizer probe must see grounded tables created and read.'),
         note='trusted: admissible differences (List order, ties) from the reference evaluator'),
+    'C11': dict(
+        category='exploration', design_ref='DESIGN.md 4/C11',
+        technique='runtime monitor: metamorphic comparison of re-spelled programs (printer spelling policies + IR rewrites) on the real pipeline + SQLite',
+        text=('Each documented shorthand is toggled at all occurrences, at single occurrences and in random mixes on generated programs; '
+              'both spellings run through the real pipeline on SQLite and must return the same multisets. Toggles are restricted to the '
+              'documented contexts (e.g. `=` only as assignment to a variable, no disjunction inside aggregation).'),
+        note='trusted: the printer spells the documented forms; admissible differences from the reference evaluator'),
     'C14': dict(
         category='exploration', design_ref='DESIGN.md 4/C14',
         technique='runtime trace monitor: start events recorded at the sql_runner boundary checked offline against a trace specification; icontract post-conditions on the scheduler state; stop-signal fault injection',
